@@ -95,6 +95,8 @@ def render_module(mod_defs, mi, reload_marker, conv_variant=0):
              "        raise ValueError('cannot convert BAD')",
              "    if text == 'WORSE':",
              "        raise KeyError(text)",
+             "    if text == 'ASSERT':",
+             "        raise AssertionError('converter asserts')",
              "    return text.lower()%s" % (" + '#%d'" % conv_variant if conv_variant else ""),
              "_conv_color.pattern = r'[A-Z]+'",
              "def _conv_num(text):",
@@ -285,7 +287,7 @@ def evaluate(seed, hashseed, root, stats):
             elif variant == "bad-convert":
                 if not any(t[0] == "fld" and t[2] == "Color" for t in d["tokens"]):
                     continue
-                bad = rng.choice(["BAD", "WORSE"])
+                bad = rng.choice(["BAD", "WORSE", "ASSERT"])
                 for c in W.COLORS:
                     text = text.replace(c, bad)
             types = ["given", "when", "then"] if d["type"] == "step" else [d["type"]]
@@ -332,7 +334,7 @@ def evaluate(seed, hashseed, root, stats):
                 gi += 1
                 raw = mm.group(gi)
                 if tok[0] == "fld" and tok[2] == "Color" and chosen["matcher"] != "re" and \
-                        set(["BAD", "WORSE"]) & set(x.strip() for x in (raw or "").split(",")):
+                        set(["BAD", "WORSE", "ASSERT"]) & set(x.strip() for x in (raw or "").split(",")):
                     conv_fail = True
                 val = None if (conv_fail or raw is None) else W.convert_value(tok[2], raw, chosen["matcher"], W.tok_card(tok))
                 if W.tok_card(tok):
